@@ -1,11 +1,16 @@
 import EmmyVerif.Model.RangeText
+import EmmyVerif.Model.Printer
 import EmmyVerif.Drv.Util
 /-! Driver ops of the `printer` family (formatter cluster: range-format text helpers, IR printer).
 
 `printer.rt <text> <s> <e> <prefix> <keep>` (hex bytes, numbers, hex bytes, `,`-separated offsets or `-`):
   `ok clamp=a:b expand=c:d ls=.. le=.. indent=HEX strip=HEX apply=HEX` where
   clamp = clampRange s e |text|, expand = expandToFullLines text clamp, ls/le = line start/end of the
-  raw s/e, indent = lineIndentPrefix text expand.1, strip/apply = strip/applyBaseIndent text prefix. -/
+  raw s/e, indent = lineIndentPrefix text expand.1, strip/apply = strip/applyBaseIndent text prefix.
+
+`printer.print <maxWidth>:<indentWidth>:<t|s>:<lf|crlf>:<minSpaces>:<minColumn> <sexpr…>`: print an IR given as the
+S-expression of `verif::ir_to_sexpr` with the model printer; answer `ok <hex of the output>` (`err fuel` if the
+fuel — 3 × tokens + 100 — ran out, `err parse` for a malformed S-expression). -/
 namespace Drv.Printer
 
 def bytesOf (h : String) : Option (List Nat) :=
@@ -22,6 +27,118 @@ def rt (t : List Nat) (s e : Nat) (p : List Nat) (keep : List Nat) : String :=
   s!"clamp={c.1}:{c.2} expand={x.1}:{x.2} ls={lineStartOffset t s} le={lineEndOffset t e} " ++
   s!"indent={hexOf (lineIndentPrefix t x.1)} strip={hexOf (stripBaseIndent t p keep)} apply={hexOf (applyBaseIndent t p keep)}"
 
+/-! S-expression reader -/
+
+def tokenize (cs : List Char) : List String :=
+  let step := fun (acc : List String × List Char) (c : Char) =>
+    let flush := fun (a : List String × List Char) => if a.2.isEmpty then a.1 else String.ofList a.2.reverse :: a.1
+    if c = '(' then ("(" :: flush acc, [])
+    else if c = ')' then (")" :: flush acc, [])
+    else if c = ' ' then (flush acc, [])
+    else (acc.1, c :: acc.2)
+  let r := cs.foldl step ([], [])
+  (if r.2.isEmpty then r.1 else String.ofList r.2.reverse :: r.1).reverse
+
+open _root_.Printer in
+mutual
+def parseDoc : Nat → List String → Option (Doc × List String)
+  | 0, _ => none
+  | fuel + 1, toks =>
+    match toks with
+    | "hl" :: r => some (.hardLine, r)
+    | "sl" :: r => some (.softLine, r)
+    | "se" :: r => some (.softLineOrEmpty, r)
+    | "sp" :: r => some (.space, r)
+    | "(" :: "t" :: h :: ")" :: r => (bytesOf h).map fun b => (.text b, r)
+    | "(" :: "i" :: r => (parseMany fuel r).map fun (ds, r) => (.indent ds, r)
+    | "(" :: "l" :: r => (parseMany fuel r).map fun (ds, r) => (.list ds, r)
+    | "(" :: "s" :: r => (parseMany fuel r).map fun (ds, r) => (.list ds, r)
+    | "(" :: "f" :: r => (parseMany fuel r).map fun (ds, r) => (.fill ds, r)
+    | "(" :: "x" :: r => (parseMany fuel r).map fun (ds, r) => (.lineSuffix ds, r)
+    | "(" :: "g" :: b :: id :: "(" :: "s" :: r => do
+      let (ds, r) ← parseMany fuel r
+      match r with
+      | ")" :: r => some (.group ds (b == "1") (if id == "-" then none else id.toNat?), r)
+      | _ => none
+    | "(" :: "b" :: id :: r => do
+      let (x, r) ← parseDoc fuel r
+      let (y, r) ← parseDoc fuel r
+      match r with
+      | ")" :: r => some (.ifBreak x y (if id == "-" then none else id.toNat?), r)
+      | _ => none
+    | "(" :: "a" :: r => (parseEntries fuel r).map fun (es, r) => (.alignGroup es, r)
+    | _ => none
+/-- documents up to and including the closing parenthesis -/
+def parseMany : Nat → List String → Option (List Doc × List String)
+  | 0, _ => none
+  | fuel + 1, toks =>
+    match toks with
+    | ")" :: r => some ([], r)
+    | _ => do
+      let (d, r) ← parseDoc fuel toks
+      let (ds, r) ← parseMany fuel r
+      some (d :: ds, r)
+def parseOpt : Nat → List String → Option (Option (List Doc) × List String)
+  | 0, _ => none
+  | fuel + 1, toks =>
+    match toks with
+    | "-" :: r => some (none, r)
+    | "(" :: "s" :: r => (parseMany fuel r).map fun (ds, r) => (some ds, r)
+    | _ => none
+def parseEntries : Nat → List String → Option (List (Entry Doc) × List String)
+  | 0, _ => none
+  | fuel + 1, toks =>
+    match toks with
+    | ")" :: r => some ([], r)
+    | "(" :: "A" :: "(" :: "s" :: r => do
+      let (b, r) ← parseMany fuel r
+      match r with
+      | "(" :: "s" :: r => do
+        let (a, r) ← parseMany fuel r
+        let (t, r) ← parseOpt fuel r
+        match r with
+        | ")" :: r => do
+          let (es, r) ← parseEntries fuel r
+          some (⟨true, b, a, t⟩ :: es, r)
+        | _ => none
+      | _ => none
+    | "(" :: "L" :: "(" :: "s" :: r => do
+      let (c, r) ← parseMany fuel r
+      let (t, r) ← parseOpt fuel r
+      match r with
+      | ")" :: r => do
+        let (es, r) ← parseEntries fuel r
+        some (⟨false, c, [], t⟩ :: es, r)
+      | _ => none
+    | _ => none
+end
+
+def parseCfg (s : String) : Option _root_.Printer.Cfg :=
+  match s.splitOn ":" with
+  | [w, iw, k, nl, ms, mc] => do
+    let w ← w.toNat?
+    let iw ← iw.toNat?
+    let ms ← ms.toNat?
+    let mc ← mc.toNat?
+    some { maxWidth := w, indentWidth := iw,
+           indentStr := if k == "t" then [9] else List.replicate iw 32,
+           newline := if nl == "crlf" then [13, 10] else [10],
+           lcMinSpaces := max ms 1, lcMinColumn := mc }
+  | _ => none
+
+def printOp (cfgS : String) (sexpr : List String) : String :=
+  let toks := tokenize (" ".intercalate sexpr).toList
+  let fuel := 3 * toks.length + 100
+  match parseCfg cfgS, toks with
+  | some cfg, "(" :: "s" :: r =>
+    match parseMany fuel r with
+    | some (ds, []) =>
+      match _root_.Printer.print cfg fuel ds with
+      | some out => "ok " ++ hexOf out
+      | none => "err fuel"
+    | _ => "err parse"
+  | _, _ => "err parse"
+
 def handle (op : String) (args : List String) : Option String :=
   match op, args with
   | "rt", [t, s, e, p, k] => do
@@ -31,6 +148,7 @@ def handle (op : String) (args : List String) : Option String :=
     let p ← bytesOf p
     let k ← if k == "-" then some [] else (k.splitOn ",").mapM (·.toNat?)
     pure ("ok " ++ rt t s e p k)
+  | "print", cfg :: sexpr => some (printOp cfg sexpr)
   | _, _ => none
 
 end Drv.Printer
